@@ -1,44 +1,79 @@
 #!/usr/bin/env python3
-"""Write seeded/<dir>/meta.json from notes.md, the confirmation log and MATRIX.tsv."""
-import json, os, glob, re, sys
+"""Write seeded/<dir>/meta.json from notes.md, the confirmation logs and MATRIX.tsv.
+
+  tools/seed_meta.py <confirm log> [<confirm log> ...]     (later logs win)
+
+A confirmation log line is what tools/confirm_mutant.sh prints for one seeded change:
+  <dir name>: suite-with-patch: N passed M failed; demo-with-patch exit=X ...; demo-without-patch exit=Y ...
+"""
+import json, os, glob, re, sys, subprocess
+
 root = '/verif/seeded'
 confirm = {}
 for log in sys.argv[1:]:
     for line in open(log):
         m = re.match(r'^(\S+): suite-with-patch: (\d+) passed (\d+) failed; demo-with-patch exit=(\d+).*demo-without-patch exit=(\d+)', line)
         if m:
-            confirm[m.group(1)] = dict(suite_passed=int(m.group(2)), suite_failed=int(m.group(3)), demo_with_patch_exit=int(m.group(4)), demo_without_patch_exit=int(m.group(5)))
+            confirm[m.group(1)] = dict(log=os.path.basename(log), suite_passed=int(m.group(2)), suite_failed=int(m.group(3)),
+                                       demo_with_patch_exit=int(m.group(4)), demo_without_patch_exit=int(m.group(5)))
 matrix = {}
 if os.path.exists(root + '/MATRIX.tsv'):
     for line in open(root + '/MATRIX.tsv'):
         parts = line.rstrip('\n').split('\t')
-        if len(parts) == 2:
+        if len(parts) == 2 and parts[1].strip():
             matrix[parts[0]] = dict(x.split(':exit=') for x in parts[1].split())
+head = subprocess.run(['git', '-C', '/repo', 'log', '--format=%h', '-1'], capture_output=True, text=True).stdout.strip()
+
+ROUND_NOTE = {
+    '': 'round 1', 'r2': 'round 2', 'r3': 'round 3', 'r4': 'round 4', 'r5': 'round 5', 'r6': 'round 6', 'r7': 'round 7',
+}
+summary = []
 for d in sorted(glob.glob(root + '/C*-*/')):
     name = os.path.basename(d.rstrip('/'))
     prop = name.split('-')[0]
+    rnd = re.match(r'^C\d\d-(r\d)_', name)
     notes = open(d + 'notes.md').read() if os.path.exists(d + 'notes.md') else ''
-    def section(title):
-        m = re.search(r'\*\*' + title + r'[^*]*\*\*[:\s]*(.*?)(?:\n\s*\n|\n\*\*|\Z)', notes, re.S)
-        return ' '.join(m.group(1).split())[:900] if m else ''
-    needs = section('What is needed to manifest') or section('Needs') or section('What it needs')
-    change = section('Change') or section('What')
+
+    def section(*titles):
+        for title in titles:
+            m = re.search(r'(?:\*\*)?' + title + r'[^\n*:]*(?:\*\*)?[:\s]*(.*?)(?:\n\s*\n|\n\*\*|\n#|\Z)', notes, re.S | re.I)
+            if m and m.group(1).strip():
+                return ' '.join(m.group(1).split())[:900]
+        return ''
+    needs = section('What is needed to manifest', 'What it needs', 'Needs to manifest', 'Needs', 'Needed')
+    change = section('Change', 'What it does', 'What')
     c = confirm.get(name, {})
     mx = matrix.get(name, {})
+    manifests = c.get('demo_with_patch_exit') not in (0, None)
+    caught = sorted(k for k, v in mx.items() if v == '1')
     meta = {
         'property': prop,
         'name': name,
-        'origin': 'independent sub-agent given only the property text and a scratch worktree of /repo',
+        'origin': 'independent sub-agent (' + ROUND_NOTE.get(rnd.group(1) if rnd else '', 'round 1') + ') given only the text of the property and a scratch git worktree of /repo; nothing from /verif',
         'change': change,
         'needs_to_manifest': needs,
         'confirmed_in_scratch_worktree': {
-            'command': 'tools/confirm_mutant.sh <worktree at /repo HEAD> seeded/' + name,
-            'existing_suite_with_patch': f"{c.get('suite_passed','?')} passed, {c.get('suite_failed','?')} failed (65 tests + 5 doc tests)",
+            'at_repo_commit': head,
+            'command': 'tools/confirm_mutant.sh <scratch worktree of /repo at that commit> seeded/' + name,
+            'log': 'seeded/' + c.get('log', '?'),
+            'existing_suite_with_patch': f"{c.get('suite_passed', '?')} passed, {c.get('suite_failed', '?')} failed (65 tests + 5 doc tests)",
             'demo_with_patch_exit': c.get('demo_with_patch_exit'),
             'demo_without_patch_exit': c.get('demo_without_patch_exit'),
         },
+        'still_breaks_the_property_at_that_commit': manifests,
         'quick_checks_run_against_it': {k: ('VIOLATION' if v == '1' else 'pass' if v == '0' else 'harness error') for k, v in mx.items()},
-        'caught_by': sorted(k for k, v in mx.items() if v == '1'),
+        'caught_by': caught,
+        'how_it_was_run': 'git -C /repo apply seeded/' + name + '/patch.diff; ./check <Cxx> quick (default seed, PBSIM_FAST=1: no minimisation); git -C /repo checkout -- .   (tools/seeded_matrix.sh)',
     }
+    if not manifests:
+        meta['note'] = 'the demonstration no longer fails with the patch at this commit: a later repair of /repo made the stack robust against this change (see notes.md / DESIGN 8.3); kept for the record'
     json.dump(meta, open(d + 'meta.json', 'w'), indent=1)
-    print(name, meta['caught_by'])
+    summary.append((name, manifests, caught))
+print(len(summary), 'seeded changes;', sum(1 for s in summary if s[1]), 'still manifest;',
+      sum(1 for s in summary if s[1] and s[2]), 'of those caught by at least one quick check;',
+      sum(1 for s in summary if s[1] and s[0].split('-')[0] in s[2]), 'by the check of their own property')
+for s in summary:
+    if s[1] and not s[2]:
+        print('  not caught:', s[0])
+    if s[1] and s[2] and s[0].split('-')[0] not in s[2]:
+        print('  caught only by other checks:', s[0], s[2])
